@@ -416,4 +416,6 @@ func runC01(c *Ctx, r *Report) {
 		r.check(holds, relName(bk)+":key term guard", in.Pos(), bk, "a term contributes to the cache key only if it is alone in its set, not negated and of the base kind", "OR alternatives / negated / other-kind terms leak into the search-space key")
 	})
 	r.floor("cache-key appends", n, 1)
+	// shared with C02: 'word' terms must match regardless of the scan direction chosen by --scheme/--tiebreak
+	c02r3(c, r)
 }
